@@ -405,3 +405,19 @@ Proof.
     + symmetry. apply (joinR_sort (j_min j) (j_pred j) tcols l (sem_tree env f) Hd Hcons ts Hcur).
   - destruct Hcur.
 Qed.
+
+(* a decidable form of the contract, for concrete tables *)
+Definition consistentb (c : gset tag) (L R : rows) : bool :=
+  forallb (λ x : row, forallb (λ r : row,
+    negb (agree_on c x r) || bool_decide (restrict (dom r) x = restrict (dom x) r)) R) L.
+
+Lemma consistentb_spec c L R : consistentb c L R = true → consistent c L R.
+Proof.
+  unfold consistentb, consistent. intros H x r Hx Hr Ha k Hkx Hkr.
+  rewrite forallb_forall in H. specialize (H x (proj1 (elem_of_list_In _ _) Hx)).
+  rewrite forallb_forall in H. specialize (H r (proj1 (elem_of_list_In _ _) Hr)).
+  rewrite Ha in H. cbn [negb orb] in H. apply bool_decide_eq_true in H.
+  assert (E : restrict (dom r) x !! k = restrict (dom x) r !! k) by (rewrite H; reflexivity).
+  rewrite !restrict_lookup in E.
+  destruct (decide (k ∈ dom r)); [|contradiction]. destruct (decide (k ∈ dom x)); [|contradiction]. exact E.
+Qed.
